@@ -109,6 +109,7 @@ pub fn check_grammar(f: &FamGrammar, maxlen: usize, res: &mut ShardResult) {
     parser.set_language(&l.language).unwrap();
     let seps: Vec<&str> = if f.has_ws_extras { vec!["", " "] } else { vec![""] };
     for ix in families::token_strings(f.alphabet.len(), maxlen) {
+        if families::skip_string(f, &ix) { continue; }
         for sep in &seps {
             // multi-character identifiers glue together without a separator: only single-character tokens are joined directly
             if sep.is_empty() && ix.windows(2).any(|w| f.alphabet[w[0]].1 == "identifier" && f.alphabet[w[1]].1 == "identifier" || f.alphabet[w[0]].1 == "number" && f.alphabet[w[1]].1 == "number" || f.alphabet[w[0]].1 == "identifier" && f.alphabet[w[1]].1 == "number") { continue; }
